@@ -50,8 +50,10 @@ CompleteFoundExtent == LET f1 == CFail(md.f, TRUE) IN
                        f1 = "" \/ (TabAfterEol(s) /\ f1 = "indent" /\ CFail(md.f, FALSE) \in {"", "indent"})
 (* ---- code block context ---- *)
 CodeFixedConfined == Confined(cd.xt) /\ Confined(cd.xs)
-\* as found: every line that leaves the block starts after a lone CR of the string
-CodeFoundExtent == /\ LeaksOnlyAfterCR(cd.ft) /\ LeaksOnlyAfterCR(cd.fs)
+\* as found: only strings with a CR leave the block: under CommonMark's line endings every leaking line
+\* starts after a lone CR (no indentation written there), under LF-only line endings every leaking line
+\* starts with a CR (the indentation written after "LF CR" instead of after the LF)
+CodeFoundExtent == /\ LeaksOnlyAfterCR(cd.ft) /\ LeaksOnlyAfterCR(cd.fs) /\ LeaksOnlyAtCR(cd.ft) /\ LeaksOnlyAtCR(cd.fs)
                    /\ (HasCR(s) \/ (Confined(cd.ft) /\ Confined(cd.fs)))
 \* the repairs change nothing else: same output wherever the as-found output already met the reference
 FixConservative == /\ (~TabAfterEol(s) => md.x = md.f)
